@@ -268,14 +268,15 @@ bool FilePersister::put(const unsigned seqnum, const f8String& what)
 		return false;
 	}
 	IPrec iprec(seqnum, offset, static_cast<unsigned>(what.size()));
-	if (write (_iod, static_cast<void *>(&iprec), sizeof(IPrec)) != sizeof(IPrec))
-	{
-		glout_error << "Error: could not write index record for seqnum " << seqnum << " to: " << _dbIname;
-		return false;
-	}
+	// write the record before its index entry: an interrupted put must not leave an index entry without data
 	if (write (_fod, what.data(), static_cast<unsigned>(what.size())) != static_cast<ssize_t>(what.size()))
 	{
 		glout_error << "Error: could not write record for seqnum " << seqnum << " to: " << _dbFname;
+		return false;
+	}
+	if (write (_iod, static_cast<void *>(&iprec), sizeof(IPrec)) != sizeof(IPrec))
+	{
+		glout_error << "Error: could not write index record for seqnum " << seqnum << " to: " << _dbIname;
 		return false;
 	}
 
